@@ -516,8 +516,8 @@ class JSON(Term):
             return self._get_list_sql(value, **kwargs)  # type:ignore[arg-type]
         if isinstance(value, str):
             return self._get_str_sql(value, **kwargs)
-        if value is None or isinstance(value, bool):
-            # JSON spells these null / true / false
+        if value is None or isinstance(value, (bool, int, float)):
+            # JSON spells these null / true / false; numbers as json.dumps writes them (an enum member that is a number too)
             return json.dumps(value)
         return str(value)
 
